@@ -125,7 +125,9 @@ var srcBlock = []string{"div", "p", "section", "ul", "h1", "article", "blockquot
 var srcInline = []string{"span", "b", "i", "em", "a", "strong", "code"}
 var srcVoid = []string{"br", "img", "input", "hr"}
 var srcTexts = []string{"word", "two words", "a &lt; b", "x &amp; y", "&quot;q&quot;", "it&#39;s", "&lt;b&gt;bold&lt;/b&gt;", "a &lt; b &amp; c;", "semi; colon", "caf&eacute;", "1 &gt; 0", "&copy; 2024", "tab\there"}
-var srcAttrVals = []string{"v", "a b", "a &amp; b", "&quot;q&quot;", "say &quot;hi&quot; &amp; bye", "&lt;tag&gt;", "x=1&amp;y=2", "it&#39;s", "", "  padded  ", "a;b", "&amp;amp;"}
+var srcAttrVals = []string{"v", "a b", "a &amp; b", "&quot;q&quot;", "say &quot;hi&quot; &amp; bye", "&lt;tag&gt;", "x=1&amp;y=2", "it&#39;s", "", "  padded  ", "a;b", "&amp;amp;",
+	// interior white space is part of the value: runs of blanks, tabs and line breaks, written literally or as character references
+	"John  Smith", "dd  mm   yyyy", "line 1&#10;line 2", "a&#9;b", "first line\nsecond line", "a\tb", "x &#32; y", "p1\n\n  p2"}
 
 // attribute names of a directive-free template: plain ones, and names that merely LOOK like template syntax — a namespace or event
 // prefix with a colon inside (xml:lang, x-on:click), an at-sign, a dot, a v- prefix that is no vuego directive — all of them are static
